@@ -315,7 +315,7 @@ fn schema_mentions(s: &Schema, name: &str) -> bool {
 
 pub fn run(ctx: &mut Ctx, reg: &Registry) {
     let subs = subjects(reg);
-    let nvals = nvals(ctx, 10, 80);
+    let nvals = nvals(ctx, 40, 80);
     for s in subs.iter() {
         if !ctx.mine(s.index) || !ctx.wants_type(&s.label) || !slow_keep(s) {
             continue;
